@@ -279,15 +279,15 @@ def nat_tasks(progs, run, pool):
     quick = run.tier == "quick"
     rng = run.rng("nat-plan")
     allidx = [i for i, (c, _v) in enumerate(pool) if c != "slow"]
-    p1 = N.thin(pool, 10, rng) if quick else allidx          # primary programs, one slot
+    p1 = N.thin(pool, 8, rng) if quick else allidx          # primary programs, one slot
     v1 = N.thin(pool, 4, rng) if quick else N.thin(pool, 8, rng)   # filter-argument variants, one slot
     p2 = N.thin(pool, 2, rng) if quick else N.thin(pool, 4, rng)
     v2 = N.thin(pool, 1, rng) if quick else N.thin(pool, 2, rng)
     t1 = N.thin(pool, 1, rng)
     p3 = sorted(rng.sample(t1, 20)) if quick else t1
     scale = 1.0 if quick else 2.0
-    rand_n = run.size(10000, 400000)
-    prod_cap = run.size(60000, 1500000)
+    rand_n = run.size(6000, 400000)
+    prod_cap = run.size(40000, 1500000)
     cap = 60000
     tasks = []
     sizes = collections.Counter()
@@ -881,6 +881,14 @@ def replay(run):
 
 def main():
     run = Run("C05")
+    # scratch directory for the workers' stderr files; removed when the main process exits
+    import atexit
+    import shutil
+    import tempfile
+    tmpdir = tempfile.mkdtemp(prefix="c05-run-")
+    os.environ["C05_TMPDIR"] = tmpdir
+    main_pid = os.getpid()
+    atexit.register(lambda: os.getpid() == main_pid and shutil.rmtree(tmpdir, ignore_errors=True))
     M.bin_path("verif")
     if run.replay:
         return replay(run)
